@@ -197,6 +197,32 @@ def fn_params(src, name, table, rel, impl_pattern=None):
     return rustcanon.param_names(fn_item(src, name, table, rel, impl_pattern)[0])
 
 
+def inline_self_calls(body, src, impl_pattern, table, rel, keep=(), depth=3):
+    """body with every call `self.<helper>(..)` / `Self::<helper>(..)` of a method of the same impl replaced by `{ <body of helper> }`,
+    in place (the textual order of the statements is the order of evaluation), `keep` excepted and recursively up to `depth` levels:
+    a function split into private helpers still prints the same things in the same order. The helper's parameters keep their own
+    names, so this serves shape tests that look at literals and call sequences, not at data flow"""
+    if depth == 0:
+        return body
+    out, i = [], 0
+    for m in re.finditer(r"\b(?:self\.|Self::)(\w+)\s*\(", body):
+        if m.start() < i or m.group(1) in keep:
+            continue
+        try:
+            helper = fn_item(src, m.group(1), table, rel, impl_pattern)[1]
+        except ExtractionError:
+            continue                                   # not a method of this impl (a field that is called, a trait method, ..)
+        args = block_after(body, m.end() - 1, "(", ")")
+        if args is None:
+            continue
+        end = m.end() + len(args) + 1
+        out.append(body[i:m.start()])
+        out.append("{" + inline_self_calls(helper, src, impl_pattern, table, rel, tuple(keep) + (m.group(1),), depth - 1) + "}")
+        i = end
+    out.append(body[i:])
+    return "".join(out)
+
+
 def rename_locals(body, mapping, table, rel, where):
     """body with the locals `old` of mapping {old: new} called `new`: the shape tests of an extractor are written with the names the
     code had when they were written; the names in use are read from the code (by what they are bound to) and mapped back first"""
@@ -221,6 +247,25 @@ def local_bound_to(body, rhs_regex, what, table, rel, mutable=None):
 
 WIDTH = {"i8": 1, "u8": 1, "i16": 2, "u16": 2, "i32": 4, "u32": 4, "i64": 8, "u64": 8}
 
+INT_LIT = r"(?:0b[01_]+|0x[0-9a-fA-F_]+|0o[0-7_]+|\d[\d_]*)(?:[iu](?:8|16|32|64|128|size))?"
+INT_OR_CONST = r"(?:" + INT_LIT + r"|(?:Self::)?[A-Z][A-Z0-9_]*)"
+
+
+def int_or_const(src, tok, table, rel, where, body=""):
+    """value of `tok`: an integer literal (`2`, `0b11`, `0x3`, `3u8`), or the name of a constant `const NAME: <int type> = <literal>;`
+    declared once in the function or anywhere in the file (a magic number given a name is still that number)"""
+    tok = tok.strip()
+    if re.fullmatch(INT_LIT, tok):
+        return int(re.sub(r"[iu](?:8|16|32|64|128|size)$", "", tok).replace("_", ""), 0)
+    name = tok[6:] if tok.startswith("Self::") else tok
+    decls = re.findall(r"\bconst\s+" + re.escape(name) + r"\s*:\s*[iu](?:8|16|32|64|128|size)\s*=\s*(-?\s*" + INT_LIT + r")\s*;", body) \
+        or re.findall(r"\bconst\s+" + re.escape(name) + r"\s*:\s*[iu](?:8|16|32|64|128|size)\s*=\s*(-?\s*" + INT_LIT + r")\s*;", src)
+    if len(decls) != 1:
+        raise ExtractionError(table, rel, f"{where}: `{tok}` is neither an integer literal nor a constant declared (once) with a literal value")
+    lit = re.sub(r"\s+", "", decls[0])
+    v = int_or_const(src, lit.lstrip("-"), table, rel, where)
+    return -v if lit.startswith("-") else v
+
 
 def gen_varint_arms(repo):
     T = "VarintArms"
@@ -240,7 +285,7 @@ def gen_varint_arms(repo):
         else:
             body = rename_locals(body, {params[0]: "value"}, T, rel, fn)
         mapping = {}
-        sm = re.search(r"\blet\s+(\w+)\s*(?::\s*\w+\s*)?=\s*value\s*<<\s*\d+\s*;", body)
+        sm = re.search(r"\blet\s+(\w+)\s*(?::\s*\w+\s*)?=\s*value\s*<<\s*" + INT_OR_CONST + r"\s*;", body)
         if sm:
             mapping[sm.group(1)] = "shifted_value"
         rm = re.search(r"\bmatch\s+(\w+)\s*\{\s*\d+\s*\.\.=", body)
@@ -254,10 +299,10 @@ def gen_varint_arms(repo):
         if not m:
             raise ExtractionError(T, rel, f"{fn}: `match required_bits` not found")
         arms_src = block_after(body, m.end())
-        sh = re.search(r"shifted_value\s*:\s*\w+\s*=\s*value\s*<<\s*(\d+)", body)
+        sh = re.search(r"shifted_value\s*(?::\s*\w+\s*)?=\s*value\s*<<\s*(" + INT_OR_CONST + r")\s*;", body)
         if not sh:
             raise ExtractionError(T, rel, f"{fn}: `shifted_value = value << n` not found")
-        shift = int(sh.group(1))
+        shift = int_or_const(src, sh.group(1), T, rel, fn, body)
         arms = []
         upper_open = None
         for a in [x.strip() for x in arms_src.split("=>")]:
@@ -312,10 +357,10 @@ def gen_varint_arms(repo):
         dm = re.search(r"\blet\s+mut\s+(\w+)\s*(?::[^=;]+)?=\s*match\s+self\.peek_byte\(\)\?", body)
         if dm:
             body = rename_locals(body, {dm.group(1): "value"}, T, rel2, fn)
-        m = re.search(r"match\s+self\.peek_byte\(\)\?\s*&\s*(0b[01]+|\d+)\s*", body)
+        m = re.search(r"match\s+self\.peek_byte\(\)\?\s*&\s*(" + INT_OR_CONST + r")\s*(?=\{)", body)
         if not m:
             raise ExtractionError(T, rel2, f"{fn}: `match self.peek_byte()? & mask` not found")
-        mask = int(m.group(1), 0)
+        mask = int_or_const(dsrc, m.group(1), T, rel2, fn, body)
         arms_src = block_after(body, m.end())
         rows = []
         for m2 in re.finditer(r"(0b[01]+|\d+)\s*=>\s*(\w+)::decode_from\(self\)\?", arms_src):
@@ -323,12 +368,12 @@ def gen_varint_arms(repo):
             if ty not in WIDTH:
                 raise ExtractionError(T, rel2, f"{fn}: unknown type {ty}")
             rows.append((int(code, 0), WIDTH[ty], ty.startswith("i")))
-        sh = re.search(r"value\s*>>=\s*(\d+)", body)
+        sh = re.search(r"value\s*>>=\s*(" + INT_OR_CONST + r")\s*;", body)
         if not sh:
             raise ExtractionError(T, rel2, f"{fn}: `value >>= n` not found")
         if not re.search(r"T::try_from\(value\)", body):
             raise ExtractionError(T, rel2, f"{fn}: `T::try_from(value)` narrowing not found")
-        return rows, mask, int(sh.group(1))
+        return rows, mask, int_or_const(dsrc, sh.group(1), T, rel2, fn, body)
 
     srows, smask, sdshift = dec_arms("decode_varint", None)
     urows, umask, udshift = dec_arms("decode_varuint", None)
@@ -665,9 +710,16 @@ def gen_plugin_spec(repo):
     if not re.search(r"while\s+let\s+Some\(c\)\s*=\s*char_iter\.next\(\)", body) or not re.search(r"char_iter\s*=\s*s\.chars\(\)\.peekable\(\)", body):
         raise ExtractionError(T, rel, "the loop is not `while let Some(c) = char_iter.next()` over `s.chars().peekable()`")
     # after the loop: three trims, two emptiness checks, three error returns in all
+    # the empty-key check rejects when ANY pair of `args` has an empty first component: a loop over the pairs with an early return
+    # (`for arg in &args { if arg.0.is_empty() { return Err(..) } }`, the pair possibly destructured as `(key, _)`), or the same
+    # test written with `Iterator::any` (`if args.iter().any(|(key, _)| key.is_empty()) { return Err(..) }`)
+    empty_key_forms = (
+        r"for\s+(?:(?P<a1>\w+)|\(\s*(?P<k1>\w+)\s*,\s*_\w*\s*\))\s+in\s+(?:&\s*args|args\.iter\(\))\s*\{\s*if\s+(?:(?P=a1)\.0|(?P=k1))\.is_empty\(\)\s*\{\s*return\s+Err\(",
+        r"if\s+args\.iter\(\)\.any\(\s*\|\s*(?:(?P<a2>\w+)|\(\s*(?P<k2>\w+)\s*,\s*_\w*\s*\))\s*\|\s*(?:(?P=a2)\.0|(?P=k2))\.is_empty\(\)\s*\)\s*\{\s*return\s+Err\(",
+    )
     for pat, what in ((r"plugin_path\.trim\(\)", "path trim"), (r"key\.trim\(\)", "key trim"), (r"value\.trim\(\)", "value trim"),
                       (r"if\s+path\.is_empty\(\)\s*\{\s*return\s+Err\(", "empty-path check"),
-                      (r"if\s+arg\.0\.is_empty\(\)\s*\{\s*return\s+Err\(", "empty-key check"),
+                      ("|".join("(?:" + f + ")" for f in empty_key_forms), "empty-key check"),
                       (r"Ok\(Plugin\s*\{\s*path\s*,\s*args\s*\}\)", "Ok(Plugin { path, args })")):
         if not re.search(pat, body):
             raise ExtractionError(T, rel, f"{what} not found")
@@ -756,7 +808,10 @@ def gen_emit_format(repo):
     sev = dict(re.findall(r'DiagnosticLevel::(\w+)\s*=>\s*"([^"\\]*)"', jbody))
     if set(sev) != {"Error", "Warning"} or not re.search(r"DiagnosticLevel::Allowed\s*=>\s*continue", jbody):
         raise ExtractionError(T, rel, "severity match of emit_diagnostics_in_json not understood")
-    hbody = fn_body(src, "emit_diagnostics_in_human", T, rel, EM)
+    # private helpers of the emitter that emit_diagnostics_in_human calls (other than emit_snippet, which is modelled on its own)
+    # are read as part of it: splitting the function does not change what it prints
+    hbody = inline_self_calls(fn_body(src, "emit_diagnostics_in_human", T, rel, EM), src, EM, T, rel,
+                              keep=("emit_snippet", "emit_diagnostics_in_human"))
     # the prefix is `<word> [<code of the diagnostic>]`: the code may be captured inline from a local (`[{code}]` with
     # `let code = diagnostic.code();`) or passed as a positional argument (`[{}]", code` / `[{}]", diagnostic.code()`)
     lv = re.search(r"\bfor\s+(\w+)\s+in\s+\w+\s*\{", hbody)
@@ -1283,13 +1338,27 @@ def gen_panic_sites(repo):
         if cls not in classes:
             cls = "unmapped"
         rows.append(f"  ({q(k)}, SiteClass.{cls}, {q(disp)})")
-    stale = sorted(set(ledger) - set(keys))
-    # name the offending sites in the check's output (every non-TABLE line of the translator is reported as a broken obligation)
+    # A ledger entry whose site is gone: the panic-capable construct was removed from the code (`x[2..]` became `strip_prefix`, an
+    # index loop became a `zip`) or it moved where the inheritance above does not follow (another fn / file) -- in the second case
+    # the new site is unmapped and `ledger_complete` fails on its own account. Removing a construct cannot add a panic, so a gone
+    # entry is *retired* (published, named in a NOTE, not an obligation) unless it can change how a remaining site is classified:
+    # sites with the same text in the same fn are told apart by their number (`key`, `key #2`, ..), so when one of them goes the
+    # others are renumbered and take each other's entries; that is harmless only if all of them have the same disposition.
+    def family(k):
+        return parts(k)[:3]
+    stale, retired = [], []
+    for k in sorted(set(ledger) - set(keys)):
+        same_text = [x for x in ledger if family(x) == family(k)]
+        (retired if all(ledger[x].get("disposition") == ledger[k].get("disposition") for x in same_text) else stale).append(k)
+    # name the offending sites in the check's output (every line of the translator that is neither TABLE nor NOTE is reported as a
+    # broken obligation)
     for k in keys:
         if k not in ledger:
             print(f"PanicSites: site not in the ledger (classify it in translator/ledger/panic_sites.json): {k}")
     for k in stale:
-        print(f"PanicSites: ledger entry whose site is gone (remove or re-key it): {k}")
+        print(f"PanicSites: ledger entry whose site is gone while sites with the same text but another disposition remain (remove or re-key it): {k}")
+    for k in retired:
+        print(f"NOTE PanicSites: ledger entry whose site is gone (the construct was removed; delete the entry at the next opportunity): {k}")
     text = "-- GENERATED by translator/extract.py from slicec/src + translator/ledger/panic_sites.json — do not edit.\nnamespace Slicec.Gen\n" \
            "/-- class of a panic-capable site: `model` the model has this outcome branch; `unreachable` shown or argued unreachable;\n" \
            "    `internal` guards an invariant established by earlier phases; `environment` needs a failing output stream (outside the\n" \
@@ -1297,8 +1366,12 @@ def gen_panic_sites(repo):
            "inductive SiteClass where\n  | model | unreachable | internal | environment | reachable | unmapped\n  deriving DecidableEq, Repr\n" \
            "/-- (site = file::fn::normalised text, class, disposition text of the ledger) -/\n" \
            "def panicSites : List (String × SiteClass × String) := [\n" + ",\n".join(rows) + "]\n" \
-           "/-- ledger entries whose site no longer exists in the source -/\n" \
+           "/-- ledger entries whose site no longer exists in the source although sites with the same text in the same fn, but with\n" \
+           "    another disposition, remain (the renumbering of the remaining ones could give them the wrong entry) -/\n" \
            "def staleLedgerKeys : List String := [" + ", ".join(q(k) for k in stale) + "]\n" \
+           "/-- ledger entries whose site no longer exists and which cannot be confused with a remaining site: the panic-capable\n" \
+           "    construct was removed from the code; informational -/\n" \
+           "def retiredLedgerKeys : List String := [" + ", ".join(q(k) for k in retired) + "]\n" \
            "/-- (ledger key, current key): sites whose line was reformatted / re-bound / whose fn was renamed; they keep their disposition\n" \
            "    because the panic-capable expression is unchanged — update the keys in the ledger at the next opportunity -/\n" \
            "def movedPanicSites : List (String × String) := [" + ", ".join(f"({q(a)}, {q(b)})" for a, b in moved) + "]\nend Slicec.Gen\n"
@@ -1698,6 +1771,34 @@ def top_level_groups(src, open_ch="(", close_ch=")"):
 
 
 
+def allow_argument_validity(pf, table, rel):
+    """the validity test of `Allow::parse_from`, read from its canonical form `pf` (rustcanon.canon; `$2` = args): returns
+    (loop variable, [identifiers that are rejected although they are allowable]). An argument is valid when it is one of
+    `Lint::ALLOWABLE_LINT_IDENTIFIERS` and not one of the rejected identifiers, and an invalid one is reported; spellings:
+      (1) `let mut v = ALLOWABLE.contains(&a.as_str()); if a == "X" { v = false; } .. if !v {`
+      (2) `let v = ALLOWABLE.contains(&a.as_str()) && a != "X" ..; if !v {`
+      (3) `if !ALLOWABLE.contains(&a.as_str()) || a == "X" .. {`"""
+    contains = r"Lint::ALLOWABLE_LINT_IDENTIFIERS\.contains\(&(?P<a>\$\d+)\.as_str\(\)\)"
+    bad = "Allow::parse_from: the validity test of an argument has an unexpected shape"
+    m = re.search(r"for (?P<a0>\$\d+) in \$2\{.*?let mut (?P<v>\$\d+)=" + contains + r";", pf)
+    if m and m.group("a0") == m.group("a"):
+        a, v = re.escape(m.group("a")), re.escape(m.group("v"))
+        rejected = re.findall(r"if " + a + r'=="(\w+)"\{' + v + r"=false;\}", pf)
+        if len(re.findall(v + r"=(?!=)", pf)) != 1 + len(rejected) or not re.search(r"if!" + v + r"\{", pf):
+            raise ExtractionError(table, rel, "Allow::parse_from: the validity flag is assigned or used in a way that is not understood")
+        return m.group("a"), rejected
+    m = re.search(r"for (?P<a0>\$\d+) in \$2\{.*?let (?P<v>\$\d+)=" + contains + r'(?P<ne>(?:&&(?P=a)!="\w+")*);', pf)
+    if m and m.group("a0") == m.group("a"):
+        v = re.escape(m.group("v"))
+        if len(re.findall(v + r"=(?!=)", pf)) != 1 or not re.search(r"if!" + v + r"\{", pf):
+            raise ExtractionError(table, rel, "Allow::parse_from: the validity flag is assigned or used in a way that is not understood")
+        return m.group("a"), re.findall(r'!="(\w+)"', m.group("ne"))
+    m = re.search(r"for (?P<a0>\$\d+) in \$2\{.*?if!" + contains + r'(?P<eq>(?:\|\|(?P=a)=="\w+")*)\{', pf)
+    if m and m.group("a0") == m.group("a"):
+        return m.group("a"), re.findall(r'=="(\w+)"', m.group("eq"))
+    raise ExtractionError(table, rel, bad)
+
+
 def gen_lints(repo):
     """lint kinds, allowable identifiers, default levels, the level-rewrite shape of `into_updated`, the scope
     expression recorded at every lint creation site, `allow` argument validation and attribute inheritance (C13)"""
@@ -2010,13 +2111,9 @@ def gen_lints(repo):
     # canonical names: $1 $2 $3 $4 = directive, args, span, diagnostics (the parameters); the loop variable and the validity flag are
     # whatever `for <a> in args` and `let mut <v> = Lint::ALLOWABLE_LINT_IDENTIFIERS.contains(&<a>.as_str());` call them
     pf = rustcanon.canon(fn_body(asrc, "parse_from", T, rel4, r"Allow"), fn_params(asrc, "parse_from", T, rel4, r"Allow"))
-    vm = re.search(r"for (\$\d+) in \$2\{.*?let mut (\$\d+)=Lint::ALLOWABLE_LINT_IDENTIFIERS\.contains\(&\1\.as_str\(\)\);", pf)
-    if not vm or not re.search(r"Allow\{allowed_lints:\$2\.clone\(\),?\}", pf):
+    if not re.search(r"Allow\{allowed_lints:\$2\.clone\(\),?\}", pf):
         raise ExtractionError(T, rel4, "Allow::parse_from: validation / stored arguments have an unexpected shape")
-    arg_v, valid_v = re.escape(vm.group(1)), re.escape(vm.group(2))
-    rejected = re.findall(r'if ' + arg_v + r'=="(\w+)"\{' + valid_v + r'=false;\}', pf)
-    if len(re.findall(valid_v + r"=", pf)) != 1 + len(rejected) or not re.search(r"if!" + valid_v + r"\{", pf):
-        raise ExtractionError(T, rel4, "Allow::parse_from: the validity flag is assigned or used in a way that is not understood")
+    _arg_v, rejected = allow_argument_validity(pf, T, rel4)
     vo = rustcanon.canon(fn_body(asrc, "validate_on", T, rel4, r"Allow"), fn_params(asrc, "validate_on", T, rel4, r"Allow"))
     mv = re.search(r"matches!\(\$1,([^)]*\)(?:\|[^)]*\))*)\)", vo)
     if not mv:
